@@ -173,13 +173,17 @@ func H_C05_valid() {
 	XmlCheckIsValid(true)
 	var x []byte
 	var err error
+	series := false
 	pos := vChoose(2)
 	enc := vChoose(4)
 	switch enc {
 	case 0, 1:
 		var m Map
 		if pos == 0 {
-			switch vChoose(3) {
+			switch vChoose(4) {
+			case 3: // a single key holding a list of maps is a series of elements: all of them are checked
+				m = Map{"r": []interface{}{map[string]interface{}{"k": "x"}, map[string]interface{}{"k": v}}}
+				series = true
 			case 0:
 				m = Map{"r": map[string]interface{}{"k": v}}
 			case 1:
@@ -214,7 +218,11 @@ func H_C05_valid() {
 		}
 	}
 	XmlCheckIsValid(false)
-	if err == nil {
+	if err == nil && series {
+		_, tokOK := vRawTokens(x)
+		vAssert(tokOK, "valid: with validity checking on, every element of a series is well formed or an error is returned")
+		vCover("accepted")
+	} else if err == nil {
 		vAssert(vSingleRoot(x), "valid: with validity checking on, an encoder returns well-formed XML or an error")
 		vCover("accepted")
 	} else {
